@@ -196,6 +196,9 @@ func (h *handshake) makeDecodeErrCache(local, remote map[uint16]error) *sync.Map
 		localRegisteredErrors[v.Error()] = v
 	}
 	for k, v := range remote {
+		if v == nil {
+			continue
+		}
 		if err, exist := localRegisteredErrors[v.Error()]; exist {
 			c.Store(k, err)
 			continue
